@@ -21,7 +21,7 @@ pub fn meta() -> Meta {
         rule: "for packets parsed from reference encodings (arbitrary compression, all 40 types, opaque/empty RDATA) and packets built from parts: every question, record, \
 name and RDATA value x is cloned and converted with into_owned; clone == x and owned == x where PartialEq exists; then the receive buffer is overwritten and dropped and \
 the owned copies are observed (model) and re-serialised: both must equal the original's model and bytes (this also covers TTL / cache-flush / unicast, which == ignores). \
-every record is compared with a copy whose class was changed through the public field (if they compare equal they must hash equally; messages with several OPT records supply records holding OPT data); NSEC values are checked again after their public window list was reversed by the application (clone, into_owned, hash, bytes). Hash: for equal pairs obtained through different routes (parsed vs built, same record with different TTL / cache-flush, Name vs Name, RData vs RData) hashes must be equal under a fixed \
+every record is compared with a copy whose class was changed through the public field (if they compare equal they must hash equally; messages with several OPT records supply records holding OPT data); values made by the public constructors and setters (TXT from text / maps / nothing, NULL, SVCB and HTTPS through their setters) get the same clone / into_owned / hash / bytes checks; NSEC values are checked again after their public window list was reversed by the application (clone, into_owned, hash, bytes). Hash: for equal pairs obtained through different routes (parsed vs built, same record with different TTL / cache-flush, Name vs Name, RData vs RData) hashes must be equal under a fixed \
 DefaultHasher; InstanceInformation values built by inserting the same addresses/ports/attributes in different orders into separately created sets must be ==, hash equally and \
 be found by HashSet::contains. non-trivial = packet with >= 1 record or question / instance with >= 2 set members; distinct = hash of the case",
         assumptions: &["DefaultHasher::new() is deterministic (fixed keys)"],
@@ -230,6 +230,66 @@ pub fn check_bytes(ctx: &mut Ctx, family: &str, idx: u64, input: &[u8], built_tw
     }
 }
 
+/// Values made by the public constructors and setters (not by the parser): clone and into_owned must give equal values
+/// with equal hashes and equal bytes.
+fn constructed_values(ctx: &mut Ctx) {
+    use simple_dns::rdata::{RData, NULL, SVCB, TXT};
+    use simple_dns::CLASS;
+    let r = monitor::guard(|| {
+        let mut vals: Vec<(String, RData<'static>)> = Vec::new();
+        vals.push(("TXT::new()".into(), RData::TXT(TXT::new())));
+        vals.push(("TXT::try_from(\"\")".into(), RData::TXT(TXT::try_from("").unwrap().into_owned())));
+        vals.push(("TXT::try_from(empty map)".into(), RData::TXT(TXT::try_from(std::collections::HashMap::new()).unwrap())));
+        vals.push(("TXT::try_from(\"abc\")".into(), RData::TXT(TXT::try_from("abc").unwrap().into_owned())));
+        for n in [254usize, 255, 256, 508, 600] {
+            let text = "t".repeat(n);
+            vals.push((format!("TXT::try_from({} bytes)", n), RData::TXT(TXT::try_from(text.as_str()).unwrap().into_owned())));
+        }
+        let mut m = std::collections::HashMap::new();
+        m.insert("k".to_string(), Some("v".to_string()));
+        m.insert("flag".to_string(), None);
+        vals.push(("TXT::try_from(map)".into(), RData::TXT(TXT::try_from(m).unwrap())));
+        vals.push(("TXT with_string x2".into(), RData::TXT(TXT::new().with_string("a").unwrap().with_string("").unwrap().into_owned())));
+        vals.push(("NULL::new(empty)".into(), RData::NULL(10, NULL::new(&[]).unwrap().into_owned())));
+        vals.push(("NULL::new(3 bytes)".into(), RData::NULL(65280, NULL::new(&[1, 2, 3]).unwrap().into_owned())));
+        let mut s1 = SVCB::new(0, Name::new("alias.example").unwrap().into_owned());
+        vals.push(("SVCB::new alias".into(), RData::SVCB(s1.clone())));
+        s1.set_port(443);
+        s1.set_no_default_alpn();
+        let _ = s1.set_mandatory([3u16, 1]);
+        let _ = s1.set_ipv4hint([0x0A000001u32]);
+        vals.push(("SVCB with setters".into(), RData::SVCB(s1.clone())));
+        vals.push(("HTTPS with setters".into(), RData::HTTPS(simple_dns::rdata::HTTPS(s1))));
+        let mut problems: Vec<String> = Vec::new();
+        for (what, rd) in &vals {
+            let rr = ResourceRecord::new(Name::new("built.example").unwrap().into_owned(), CLASS::IN, 30, rd.clone());
+            let owned = rr.clone().into_owned();
+            if rr.clone() != rr { problems.push(format!("constructed-clone-ne:{}", what)); }
+            if owned != rr { problems.push(format!("constructed-owned-ne:{}", what)); }
+            if rd.clone().into_owned() != *rd { problems.push(format!("constructed-rdata-owned-ne:{}", what)); }
+            if owned == rr && h(&owned) != h(&rr) { problems.push(format!("constructed-eq-but-hash-differs:{}", what)); }
+            if h(&rd.clone().into_owned()) != h(rd) && rd.clone().into_owned() == *rd { problems.push(format!("constructed-rdata-eq-but-hash-differs:{}", what)); }
+            let mut set = HashSet::new();
+            set.insert(rr.clone());
+            if owned == rr && !set.contains(&owned) { problems.push(format!("constructed-hashset-misses-owned:{}", what)); }
+            let b0 = packet_of(vec![], vec![rr.clone()]).build_bytes_vec().ok();
+            let b1 = packet_of(vec![], vec![owned]).build_bytes_vec().ok();
+            if b0.is_none() || b0 != b1 { problems.push(format!("constructed-owned-bytes-differ:{}", what)); }
+        }
+        (vals.len(), problems)
+    });
+    match r {
+        Err(pn) => ctx.panic_violation("constructed values", &pn, json!({"family": "constructed", "idx": 0})),
+        Ok((n, problems)) => {
+            ctx.add("constructed_values_checked", n as u64);
+            for k in 0..n { ctx.case(true, 0xC0C0_0000 ^ k as u64); }
+            for pr in problems {
+                ctx.violation("owned-equals-original", &pr, format!("value made by a public constructor: {}", pr), json!({"family": "constructed", "idx": 0}));
+            }
+        }
+    }
+}
+
 fn instance_pairs(ctx: &mut Ctx, idx: u64) {
     let mut r = ctx.rng("instance", idx);
     let n_ip = r.usize(0, 6);
@@ -309,6 +369,9 @@ pub fn run(ctx: &mut Ctx) {
         let b = encode(&m, Plan::Arbitrary(Rng::for_case(seed, "c16-plan", idx))).bytes;
         ctx.sample("parsed", || json!({"bytes": hex(&b)}));
         check_bytes(ctx, "parsed", idx, &b, Some(&p));
+    }
+    if ctx.family_active("constructed") && ctx.take("constructed", 0) {
+        constructed_values(ctx);
     }
     // messages with two or three OPT records: the parser lifts one, the others stay in the section as ordinary records
     // holding OPT data (the only way such records come to exist besides building them by hand)
